@@ -101,6 +101,127 @@ def lexical(path):
     return "/".join(segs) if segs else None
 
 
+WS = " \t\n\v\f\r"
+
+
+def run_conditional(ck, binp, root, base, quick):
+    """ETag / If-None-Match: real handler vs oracle vs model (handle_cond). Returns number of cases."""
+    import hashlib
+    rng = ck.rng
+    names = list(FILES)
+    tags = {n: '"' + hashlib.sha256(FILES[n]).hexdigest() + '"' for n in names}
+    cases = []          # (method, name, range|None, inm|None, cached)
+    if ck.replay_file:
+        for x in json.load(open(ck.replay_file))["replay"].get("cond", []):
+            cases.append((x["method"], x["name"], x["range"], x["inm"], bool(x.get("cached"))))
+        if not cases:
+            return 0
+    else:
+        for n in names:
+            t = tags[n]
+            other = tags[names[(names.index(n) + 1) % len(names)]]
+            vs = [None, "", t, " " + t + " ", "\t" + t, 'W/"abc", ' + t, t + ',"zzz"', '"zzz",' + t + ' , "yyy"', other, t.upper(),
+                  t.strip('"'), "W/" + t, "*", t + "x", "," + t, t + ",", ",", " ", t[:-1], other + "," + other, t + t, t + " " + t,
+                  "\r\n" + t + "\x0b\x0c", t.replace('"', "'"), '""', '"' + "0" * 64 + '"']
+            for _ in range(6 if quick else 60):
+                k = rng.randint(1, 4)
+                parts = [rng.choice([t, other, '"x"', "W/" + t, t[1:], "", "*"]) for _ in range(k)]
+                vs.append(",".join(rng.choice(["", " ", "  ", "\t"]) + q + rng.choice(["", " ", "\n"]) for q in parts))
+            for v in vs:
+                cases.append((rng.choice(["GET", "GET", "HEAD"]), n, None, v, rng.random() < 0.4))
+            cases.append(("GET", n, "bytes=1-3", t, False))
+            cases.append(("GET", n, "bytes=0-", t, True))
+            cases.append(("GET", n, "bytes=5", t, False))
+    lines = []
+    for m, n, h, v, cached in cases:
+        if cached:
+            lines.append("R GET %s none 1" % hx("/" + n))
+        lines.append("C %s %s %s %s %d" % (m, hx("/" + n), "none" if h is None else hx(h), "none" if v is None else hx(v), 0 if cached else 1))
+    inp, outp = os.path.join(ck.work, "cin.txt"), os.path.join(ck.work, "cout.txt")
+    with open(inp, "w") as f:
+        f.write("\n".join(lines) + "\n")
+    rc, log = vf.run_bin(binp, "^TestVerifC39$", {"VERIF_IN": inp, "VERIF_OUT": outp, "VERIF_ROOT": root,
+                                                    "HOME": os.path.join(ck.work, "home"), "EGO_PATH": base})
+    res = [l.split() for l in open(outp).read().splitlines() if l.startswith("C ")] if os.path.exists(outp) else []
+    if rc != 0 or len(res) != len(cases):
+        ck.violation("harness-run", "harness (conditional requests) failed (%d of %d):\n%s" % (len(res), len(cases), log[-1500:]),
+                     replay={"log": log[-3000:]}, found_input=False)
+        return 0
+    real = [(int(r[1]), unhx(r[2]).decode("latin1"), unhx(r[3]).decode("latin1"), unhx(r[4])) for r in res]
+
+    def rep(i):
+        m, n, h, v, cached = cases[i]
+        return {"cond": [{"method": m, "name": n, "range": h, "inm": v, "cached": cached}]}
+
+    n304 = 0
+    for i, (m, n, h, v, cached) in enumerate(cases):
+        st, et, cr, body = real[i]
+        content, t = FILES[n], tags[n]
+        desc = "%s /%s Range=%r If-None-Match=%r cached=%s -> status %d ETag %r len(body)=%d" % (m, n, h, v, cached, st, et, len(body))
+        if st == -1:
+            ck.violation("panic", "AssetsHandler panicked: " + desc, replay=rep(i))
+        elif h is None:
+            presented = v is not None and v != "" and any(q.strip(WS) == t for q in v.split(","))
+            if st == 304:
+                n304 += 1
+                if not presented or body or et != t:
+                    ck.violation("wrong-304", "304 although the presented validators do not name the current content (or ETag/body wrong): " + desc,
+                                 replay=rep(i))
+            elif st == 200:
+                if et != t or (m == "GET" and body != content):
+                    ck.violation("wrong-etag", "200 whose ETag is not the tag of the content or whose body is not the file: " + desc, replay=rep(i))
+            else:
+                ck.violation("refused", "a plain request for an existing asset was refused: " + desc, replay=rep(i))
+    ck.cov["input_distribution"]["conditional_requests"] = len(cases)
+    ck.cov["input_distribution"]["conditional_304"] = n304
+    if getattr(ck, "coq_broken", None):
+        return len(cases)
+    pre = ["From Common Require Import Base.", "From Coq Require Import ZArith.", "From Assets Require Import Model.", "Open Scope Z_scope.",
+           """Definition pack (b : list N) : N := fold_left (fun a x => a * 256 + x)%N b 1%N.
+Fixpoint unpack_fuel (fuel : nat) (n : N) (acc : list N) : list N :=
+  match fuel with O => acc | S f => if (n <=? 1)%N then acc else unpack_fuel f (n / 256)%N ((n mod 256)%N :: acc) end.
+Definition U (n : N) : list N := unpack_fuel (N.size_nat n) n [].""",
+           "Definition files : list (list N) := [%s]." % ";".join(pk(FILES[n]) for n in names),
+           "Definition hashes : list (N * str) := [%s]." % ";".join(
+               "(pack (%s), %s)" % (pk(FILES[n]), pk(hashlib.sha256(FILES[n]).hexdigest().encode())) for n in names),
+           """Fixpoint look (l : list (N * str)) (k : N) : str := match l with [] => [] | (k', v) :: r => if N.eqb k' k then v else look r k end.
+Definition hash (d : list N) : str := look hashes (pack d).
+Definition ccases : list (option str * option str * nat * bool * (Z * N * Z)) := ["""]
+    rows = []
+    for i, (m, n, h, v, cached) in enumerate(cases):
+        st, et, cr, body = real[i]
+        rows.append("(%s, %s, %d%%nat, %s, (%d, %s%%N, %d))" % (
+            "None" if h is None else "Some (%s)" % pk(h.encode("latin1")), "None" if v is None else "Some (%s)" % pk(v.encode("latin1")),
+            names.index(n), "true" if cached else "false", st, hex(int.from_bytes(b"\x01" + et.encode("latin1"), "big")),
+            -1 if m == "HEAD" else len(body)))
+    pre.append(";\n".join(rows))
+    pre.append("""].
+Definition cbad (i : nat) (c : option str * option str * nat * bool * (Z * N * Z)) : list nat :=
+  let '(h, inm, f, cached, (st, et, bl)) := c in
+  let file := nth f files [] in
+  let ok := match handle_cond hash true cached h inm file with
+            | NotModified t => (st =? 304) && N.eqb (pack t) et && ((bl =? 0) || (bl =? -1))
+            | FullTag t b => (st =? 200) && N.eqb (pack t) et && ((bl =? zlen b) || (bl =? -1))
+            | Plain o => (st =? hd 0 (outcome_code o)) && N.eqb et 1
+            end in
+  if ok then [] else [i].
+Fixpoint idx {A} (f : nat -> A -> list nat) (i : nat) (l : list A) : list nat :=
+  match l with [] => [] | x :: r => f i x ++ idx f (S i) r end.""")
+    ok, res = vf.coq_eval(GROUP, ck.work, "ccases", "\n".join(pre), {"c": "idx cbad 0 ccases"})
+    if not ok:
+        ck.violation("correspondence-eval", "model evaluation (conditional requests) failed:\n" + res[-1500:], replay={"log": res[-3000:]},
+                     found_input=False)
+        return len(cases)
+    if res["c"] and not ck.viol:
+        i = res["c"][0]
+        ck.violation("corr-conditional", "model handle_cond and AssetsHandler disagree: %s /%s Range=%r If-None-Match=%r cached=%s: real status %d "
+                     "ETag %r (the property oracle found no failing input among %d conditional requests)" % (
+                         cases[i][0], cases[i][1], cases[i][2], cases[i][3], cases[i][4], real[i][0], real[i][1], len(cases)),
+                     replay=rep(i), found_input=False)
+    ck.cov["traces_validated_against_impl"] = ck.cov.get("traces_validated_against_impl", 0) + len(cases)
+    return len(cases)
+
+
 def run(ck):
     quick = ck.tier == "quick"
     rng = ck.rng
@@ -114,7 +235,7 @@ def run(ck):
               "smartRangeLoading stays true (it is never assigned outside tests)")
     ck.trusted("harness/C39/c39_test.go (in-package overlay, httptest, recover around AssetsHandler)", "props/C39.py generators, oracle, comparison",
                "correspondence evaluated by vm_compute in a generated cases file")
-    ck.coq_stage(GROUP, theorems=["C39_no_panic", "C39_range_exact", "C39_contained", "C39_old_refuted"])
+    ck.coq_stage(GROUP, theorems=["C39_no_panic", "C39_range_exact", "C39_contained", "C39_conditional", "C39_304_current", "C39_old_refuted"])
 
     base = os.path.realpath(os.path.join(ck.work, "r"))
     root = os.path.join(base, "lib")
@@ -247,6 +368,9 @@ def run(ck):
     for i in range(0, len(cases), max(1, len(cases) // 6)):
         ck.sample({"method": cases[i][0], "path": cases[i][1], "range": cases[i][2], "status": real[i][0], "content_range": real[i][1]})
 
+    ncond = run_conditional(ck, binp, root, base, quick)
+    ck.cov["evaluations"] += ncond
+
     # ---- correspondence with the model
     if getattr(ck, "coq_broken", None):
         if not ck.viol:
@@ -329,4 +453,4 @@ Fixpoint idx {A} (f : nat -> A -> list nat) (i : nat) (l : list A) : list nat :=
             ck.violation("corr-path", "model and implementation disagree on path %r: real normalizeAssetPath=%r status %d (model: see "
                          "Assets.Model.normalize / forbidden)" % (cases[i][1], norm[i], real[i][0]), replay=rep(i), found_input=False)
             found = True
-    ck.cov["traces_validated_against_impl"] = nval
+    ck.cov["traces_validated_against_impl"] = ck.cov.get("traces_validated_against_impl", 0) + nval
